@@ -270,4 +270,11 @@ func init() {
 		Outside: []string{"several header fields changed at once, images other than the fixture, fully symbolic images", "Verify on mutated images (C02 covers single-byte mutants of a signed image)", "wall-clock time and resident memory as measured quantities", "longer symbolic DER"},
 		Assumptions: commonAssumptions,
 	}
+	registry["C16"] = &Property{
+		Quick:    []HarnessSpec{{Name: "VC16_ThirdParty", NeedReach: []string{"end"}}, {Name: "VC16_Fixtures", NeedReach: []string{"end"}}},
+		Bounds: []string{"producer language (assumption about OpenSSL smime/cms with SHA-256 and sbsign, see DESIGN.md C16): attributes contentType(data), signingTime, messageDigest, optionally sMIMECapabilities with an opaque 48-byte body, in DER order; with/without outer ContentInfo; digest algorithm with/without NULL parameters; content (4 symbolic bytes, as OCTET STRING) attached or detached — all 32 combinations; serials and certificate bytes symbolic; the blob is built by the harness's reference encoder, not by the library",
+			"decided: parses; signedBytes() and Marshal() of the parsed attributes equal the signed SET byte for byte; Verify(signer's certificate) is true and Verify(other certificate) is false", "the four third-party artefacts shipped under pkcs7/testdata and authenticode/testdata parse (concrete run; certificates through the real crypto/x509)"},
+		Outside: []string{"that the OpenSSL CLI emits exactly this language for each option combination (OpenSSL is C code outside the engine)", "verification of the shipped artefacts against their certificates (real RSA is outside the signature model)", "additional signed attributes beyond sMIMECapabilities; since fix 4b3bc85 verification uses the original attribute bytes, so attribute order no longer affects verification"},
+		Assumptions: append([]string{"signature, hash and time models as in C05"}, commonAssumptions...),
+	}
 }
